@@ -1477,7 +1477,11 @@ dt_dtconv(dt_dttyp_t tgttyp, struct dt_dt_s d)
 				zidx_t zi;
 
 				sx = (dd - DAISY_UNIX_BASE) * SECS_PER_DAY + ss;
-				zi = leaps_before_si32(leaps_s, nleaps, sx);
+				/* the table is keyed by 32-bit stamps */
+				zi = leaps_before_si32(
+					leaps_s, nleaps,
+					sx > INT32_MAX ? INT32_MAX
+					: sx < INT32_MIN ? INT32_MIN : (int32_t)sx);
 				d.sexy = sx + leaps_corr[zi];
 				break;
 			}
